@@ -268,6 +268,7 @@ pub fn main(args: &util::Args) {
                 rich_generics: true,
                 vec_generics: true,
                 overlapping_impls: true,
+                result_only_generics: true,
                 ..Default::default()
             }
         } else { crate::progen::Cfg {
